@@ -201,7 +201,7 @@ class FakeTransport(asyncio.Transport):
         g = self.gw
         idx = g.write_count
         g.write_count += 1
-        if g.fail_write_armed:
+        if g.fail_write_armed or (g.fail_policy is not None and g.fail_policy(idx)):
             g.fail_write_armed = False
             self.conn.write_failed_at = idx
             g.log.append(("write_failed", self.conn.cid, idx, round(self._loop.time(), 6)))
@@ -210,7 +210,9 @@ class FakeTransport(asyncio.Transport):
             return
         self.conn.written.append(bytes(data))
         g.log.append(("write", self.conn.cid, bytes(data).hex()))
-        if g.pause_policy is not None and g.pause_policy(idx):
+        if g.pause_policy is not None and g.pause_policy(idx) and not self.conn.paused:
+            # like a real transport crossing its high-water mark: the protocol is paused once,
+            # further writes are simply buffered until the environment drains the buffer
             self._paused_by_us = True
             self.conn.paused = True
             self._protocol.pause_writing()
@@ -322,6 +324,7 @@ class FakeGateway:
         self.pause_policy = None
         self.refuse_budget = 0        # how many further attempts the default policy refuses
         self.connect_raises = None    # exception type the factory raises synchronously
+        self.fail_policy = None
 
     # the two factories --------------------------------------------------
     async def open_connection(self, host=None, port=None, **kw):
@@ -428,7 +431,7 @@ class Session:
     """
 
     def __init__(self, kind, script, specials=None, deviations=(), client_kw=None, recv_cb="ok", status_cb="ok",
-                 settle=60.0, heal=None, max_boundaries=4000, connect_plan=("accept",)):
+                 settle=60.0, heal=None, max_boundaries=4000, connect_plan=("accept",), setup=None):
         self.kind = kind
         self.script = list(script)
         self.specials = specials or {}
@@ -439,6 +442,7 @@ class Session:
         self.settle = settle
         self.heal = heal
         self.connect_plan = list(connect_plan)
+        self.setup = setup
         self.max_boundaries = max_boundaries
         self.obs = Obs()
         self.loop = None
@@ -507,6 +511,8 @@ class Session:
         self.loop = install_loop()
         self.gw = FakeGateway(self.loop)
         patch_factories(self.gw)
+        if self.setup:
+            self.setup(self.gw)
         self.loop.set_exception_handler(self._on_exc)
         try:
             self._drive()
@@ -625,6 +631,13 @@ class Session:
                         healed = True
                         kind = "heal"
                         self.touch()
+                if not fired:
+                    # flow control: a transport that paused the writer resumes it once nothing else can run
+                    pc = next((c for c in self.gw.conns if c.paused and not c.lost), None)
+                    if pc is not None:
+                        self.env(pc.transport.env_resume)
+                        fired = True
+                        kind = "resume"
                 if not fired:
                     if nt is not None and nt - self.t_last_event <= self.settle:
                         kind = "time"
@@ -872,3 +885,12 @@ def steady_state(probe_bytes):
             return True
         return False
     return heal
+
+
+def it_send_many(factories):
+    """several send() calls issued at the same loop boundary, in this order"""
+    def item(sess):
+        for i, f in enumerate(factories):
+            sess.spawn(sess.client.send(f()), f"send{i}")
+        return True
+    return item
